@@ -1189,6 +1189,7 @@ func (l *Lowerer) typeSwitchStmt(x *ast.TypeSwitchStmt, label string) {
 }
 
 func (l *Lowerer) selectStmt(x *ast.SelectStmt, label string) {
+	l.havocChanLen()
 	exit := l.f.newBlock("sel.exit")
 	l.tg = &targets{brk: exit, label: label, prev: l.tg}
 	if l.tg.prev != nil {
@@ -1663,6 +1664,7 @@ func (l *Lowerer) chanKey(e ast.Expr) string {
 }
 
 func (l *Lowerer) chanSend(ch *Term, chExpr ast.Expr, v *Term, vt types.Type, node ast.Node) {
+	defer l.havocChanLen()
 	// ghost: number of values sent on each channel
 	cnt := l.heapVar(chanSentVar(l.typeOf(chExpr)), "Int")
 	l.assign(cnt.Name, cnt.Sort, Store(cnt, ch, Add(Select(cnt, ch), IntLit(1))))
